@@ -280,8 +280,18 @@ func (r *concRun) peerScript(rng *rand.Rand, stop <-chan struct{}) {
 			}
 		}
 	}
-	if r.cfg.Closer == "peerclose" {
+	switch r.cfg.Closer {
+	case "peerclose":
 		send(ws.Frame{Fin: true, Op: ws.OpClose, Payload: ws.ClosePayload(4001, "peer says bye")})
+	case "protoerr":
+		// a protocol violation makes the library write a Close frame (1002) on its own while writers are still active
+		send(ws.Frame{Fin: true, Rsv2: true, Op: ws.OpText, Payload: []byte("rsv2")})
+	case "toobig":
+		// a message beyond the read limit: Close frame 1009
+		send(ws.Frame{Fin: true, Op: ws.OpBin, Payload: make([]byte, 40000)})
+	case "policy":
+		// a data message while CloseRead is reading: Close frame 1008
+		send(ws.Frame{Fin: true, Op: ws.OpText, Payload: []byte("unexpected data")})
 	}
 }
 
@@ -434,6 +444,13 @@ func runConc(cfg concCfg, rep *Report, tr *ws.Tracer) *concRun {
 			closeErr = c.Close(websocket.StatusCode(1000+rng.Intn(4)), "bye")
 		case "closenow":
 			closeErr = c.CloseNow()
+		case "closebad":
+			// arguments that cannot go on the wire: Close must still close the connection and wait for its goroutines
+			if rng.Intn(2) == 0 {
+				c.Close(websocket.StatusAbnormalClosure, "1006 may not be sent")
+			} else {
+				c.Close(websocket.StatusNormalClosure, strings.Repeat("r", 124+rng.Intn(50)))
+			}
 		case "ctx":
 			inflight.Range(func(k, v interface{}) bool {
 				websocket.VerifEmit(c, "CtxCancel", "", k.(int64), 1)
@@ -470,7 +487,7 @@ func runConc(cfg concCfg, rep *Report, tr *ws.Tracer) *concRun {
 	}
 	close(stopPeer)
 	pwg.Wait()
-	if cfg.Closer == "none" || cfg.Closer == "ctx" || cfg.Closer == "peerclose" {
+	if cfg.Closer != "close" && cfg.Closer != "closenow" && cfg.Closer != "closebad" {
 		// give the reader a moment to drain what the peer sent, then end the connection
 		time.Sleep(time.Duration(200+rng.Intn(800)) * time.Microsecond)
 	}
@@ -558,7 +575,7 @@ func genConcCfg(seed int64, i int) concCfg {
 		Writers:   1 + rng.Intn(3),
 		Pingers:   rng.Intn(3),
 		Reader:    pick("loop", "loop", "loop", "closeread", "none"),
-		Closer:    pick("close", "close", "closenow", "ctx", "peerclose", "none"),
+		Closer:    pick("close", "close", "closenow", "ctx", "peerclose", "none", "protoerr", "toobig", "policy", "closebad"),
 		PeerEcho:  pick("early", "early", "late", "never"),
 		PeerPongs: pick("normal", "normal", "foreign", "withhold", "dup"),
 		Closer2:   pick("", "", "closenow", "close"),
@@ -569,6 +586,12 @@ func genConcCfg(seed int64, i int) concCfg {
 	}
 	if rng.Intn(3) == 0 {
 		cfg.Threshold = 1 + rng.Intn(300)
+	}
+	if cfg.Closer == "policy" {
+		cfg.Reader = "closeread"
+	}
+	if (cfg.Closer == "protoerr" || cfg.Closer == "toobig") && cfg.Reader == "none" {
+		cfg.Reader = "loop"
 	}
 	if cfg.Closer == "close" && cfg.PeerEcho == "never" && rng.Intn(4) != 0 {
 		cfg.PeerEcho = "early" // a never-echoing peer costs a 5 s timer; keep those rare
